@@ -2,8 +2,8 @@
 // sim.Catalog and the generated wrappers, one cell.
 //
 //   SPLIT <Model> MODE same|fresh P n hex.. S n hex.. I k len hex.. CUTSETS m  k1 c..  k2 c.. ...
-//     runs the model once over the whole series and, for each of the m cut sets (strictly
-//     increasing cut points 0 < c < len), in consecutive calls that carry the RETURNED state
+//     runs the model once over the whole series and, for each of the m cut sets (non-decreasing
+//     cut points 0 <= c <= len; equal neighbours, 0 and len give EMPTY segments: a call over zero time steps), in consecutive calls that carry the RETURNED state
 //     array forward as the initial states of the next call.
 //       MODE same : one model object, the very same state array object handed to every call
 //       MODE fresh: a new model object (ApplyParameters again) and a new state array holding the
@@ -23,12 +23,28 @@
 //        r6  object A, ApplyParameters called again first
 //        trunc(t): fresh object, inputs truncated to their first t steps
 //        repl(t) : fresh object, inputs[:t] ++ ALT[t:]  (tail replaced)
+//        ... | KEPT <checks> <bad> [first difference]
+//        every output array (from sim.InitialiseOutputs, as ow-sim and libopenwater obtain theirs) and state array of
+//        the runs above is KEPT ALIVE, with a bit-pattern snapshot taken right after its run; after every later run
+//        (same model type and shape, other models, truncated runs) all kept arrays are compared with their snapshots:
+//        a later run must not alter the results of an earlier one.
 //     GOMAXPROCS is left as the runtime set it.
+//
+//   LARGE <Model> P n hex.. S n hex.. I k len hex.. CELLS nc STEPS T
+//     two consecutive GENERATIONS of the same model type at a large shape (nc cells x T steps; the given series
+//     is tiled to T steps and rotated by the cell index, generation 2 by a different offset), output arrays from
+//     sim.InitialiseOutputs, generation 1 kept alive while generation 2 runs; then generation 1 once more on a
+//     privately allocated output array.  Arrays are reported as FNV-1a digests of their IEEE bit patterns:
+//     -> OK N <elements per output array> NZ <non-zero outputs of generation 1>
+//           G1 <outputs> <states>  G2 <outputs> <states>  K1 <generation 1 arrays re-read after generation 2>
+//           G3 <generation 1 again, private array>  K2 <generation 2 arrays re-read after that>
+//        purity requires K1 = G1, K2 = G2, G3 = G1.   | PANIC
 package main
 
 import (
 	"bufio"
 	"fmt"
+	"math"
 
 	"github.com/flowmatters/openwater-core/data"
 	"github.com/flowmatters/openwater-core/sim"
@@ -88,9 +104,15 @@ func hsStates(ss []float64) data.ND2Float64 {
 // one call of the generated Run on inputs[from:to]; returns outputs (nout x (to-from)); ok=false on a
 // recoverable panic (panics inside the wrapper's cell goroutine kill the process: vlib reports CRASH)
 func hsRun(model sim.TimeSteppingModel, states data.ND2Float64, ins [][]float64, from, to int) (outs [][]float64, ok bool) {
+	outs, _, ok = hsRunArr(model, states, ins, from, to)
+	return
+}
+
+// the same, also handing back the output array itself (so that the caller can keep it alive)
+func hsRunArr(model sim.TimeSteppingModel, states data.ND2Float64, ins [][]float64, from, to int) (outs [][]float64, arr data.ND3Float64, ok bool) {
 	defer func() {
 		if r := recover(); r != nil {
-			outs, ok = nil, false
+			outs, arr, ok = nil, nil, false
 		}
 	}()
 	n := to - from
@@ -110,7 +132,63 @@ func hsRun(model sim.TimeSteppingModel, states data.ND2Float64, ins [][]float64,
 			outs[i][j] = outputs.Get3(0, i, j)
 		}
 	}
-	return outs, true
+	return outs, outputs, true
+}
+
+// ---- arrays kept alive across runs
+type hsKept struct {
+	label string
+	out   data.ND3Float64
+	st    data.ND2Float64
+	so    []uint64
+	ss    []uint64
+}
+
+func hsBits3(a data.ND3Float64) []uint64 {
+	sh := a.Shape()
+	r := make([]uint64, 0, sh[0]*sh[1]*sh[2])
+	for i := 0; i < sh[0]; i++ {
+		for j := 0; j < sh[1]; j++ {
+			for k := 0; k < sh[2]; k++ {
+				r = append(r, math.Float64bits(a.Get3(i, j, k)))
+			}
+		}
+	}
+	return r
+}
+
+func hsBits2(a data.ND2Float64) []uint64 {
+	sh := a.Shape()
+	r := make([]uint64, 0, sh[0]*sh[1])
+	for i := 0; i < sh[0]; i++ {
+		for j := 0; j < sh[1]; j++ {
+			r = append(r, math.Float64bits(a.Get2(i, j)))
+		}
+	}
+	return r
+}
+
+func hsSameBits(a, b []uint64) int {
+	if len(a) != len(b) {
+		return 0
+	}
+	for i := range a {
+		if a[i] != b[i] {
+			return i
+		}
+	}
+	return -1
+}
+
+func hsDigest(bits []uint64) string {
+	h := uint64(14695981039346656037)
+	for _, v := range bits {
+		for s := 0; s < 64; s += 8 {
+			h ^= (v >> uint(s)) & 0xff
+			h *= 1099511628211
+		}
+	}
+	return fmt.Sprintf("%016x", h)
 }
 
 func hsReadStates(states data.ND2Float64, n int) []float64 {
@@ -232,9 +310,39 @@ func init() {
 			others[i] = hsParseCase(t)
 			others[i].name = oname
 		}
+		var kept []hsKept
+		checks, bad, firstBad := 0, 0, ""
+		verify := func(after string) {
+			for _, k := range kept {
+				checks++
+				if i := hsSameBits(k.so, hsBits3(k.out)); i >= 0 {
+					bad++
+					if firstBad == "" {
+						firstBad = fmt.Sprintf("outputs-of-%s-altered-by-%s-at-element-%d", k.label, after, i)
+					}
+				}
+				checks++
+				if i := hsSameBits(k.ss, hsBits2(k.st)); i >= 0 {
+					bad++
+					if firstBad == "" {
+						firstBad = fmt.Sprintf("states-of-%s-altered-by-%s-at-element-%d", k.label, after, i)
+					}
+				}
+			}
+		}
+		nrun := 0
+		keepRun := func(label string, model sim.TimeSteppingModel, st data.ND2Float64, ins [][]float64, n int) ([][]float64, bool) {
+			outs, arr, ok := hsRunArr(model, st, ins, 0, n)
+			verify(label)
+			if ok {
+				kept = append(kept, hsKept{label, arr, st, hsBits3(arr), hsBits2(st)})
+			}
+			return outs, ok
+		}
 		run := func(model sim.TimeSteppingModel, ins [][]float64, n int) {
+			nrun++
 			st := hsStates(c.ss)
-			outs, ok := hsRun(model, st, hsCopyRows(ins), 0, n)
+			outs, ok := keepRun(fmt.Sprintf("run%d", nrun), model, st, hsCopyRows(ins), n)
 			hsPrint(w, outs, hsReadStates(st, len(c.ss)), ok)
 		}
 		a := hsModel(name, c.ps)
@@ -250,7 +358,7 @@ func init() {
 		for _, o := range others {
 			om := hsModel(o.name, o.ps)
 			if om != nil {
-				hsRun(om, hsStates(o.ss), o.ins, 0, o.length)
+				keepRun("other-"+o.name, om, hsStates(o.ss), o.ins, o.length)
 			}
 		}
 		w.WriteString(" | ")
@@ -270,6 +378,66 @@ func init() {
 			}
 			run(hsModel(name, c.ps), mixed, c.length)
 		}
+		fmt.Fprintf(w, " | KEPT %d %d %s", checks, bad, firstBad)
 		w.WriteByte('\n')
+	}
+
+	commands["LARGE"] = func(t *toks, w *bufio.Writer) {
+		name := t.next()
+		c := hsParseCase(t)
+		t.expect("CELLS")
+		nc := t.int()
+		t.expect("STEPS")
+		T := t.int()
+		if c.length == 0 {
+			fmt.Fprintln(w, "BADCASE")
+			return
+		}
+		gen := func(model sim.TimeSteppingModel, offset int, private bool) (data.ND3Float64, data.ND2Float64) {
+			states := data.NewArray2DFloat64(nc, len(c.ss))
+			for i := 0; i < nc; i++ {
+				for j, v := range c.ss {
+					states.Set2(i, j, v)
+				}
+			}
+			inputs := data.NewArray3DFloat64(nc, len(c.ins), T)
+			for i := 0; i < nc; i++ {
+				for k, row := range c.ins {
+					for j := 0; j < T; j++ {
+						inputs.Set3(i, k, j, row[(j+i+offset)%c.length])
+					}
+				}
+			}
+			var outputs data.ND3Float64
+			if private {
+				outputs = data.NewArray3DFloat64(nc, len(model.Description().Outputs), T)
+			} else {
+				outputs = sim.InitialiseOutputs(model, T, nc)
+			}
+			model.Run(inputs, states, outputs)
+			return outputs, states
+		}
+		a := hsModel(name, c.ps)
+		if a == nil {
+			fmt.Fprintln(w, "NOMODEL")
+			return
+		}
+		o1, s1 := gen(a, 0, false)
+		b1 := hsBits3(o1)
+		nz := 0
+		for _, v := range b1 {
+			if v<<1 != 0 {
+				nz++
+			}
+		}
+		g1o, g1s := hsDigest(b1), hsDigest(hsBits2(s1))
+		o2, s2 := gen(hsModel(name, c.ps), 3, false)
+		g2o, g2s := hsDigest(hsBits3(o2)), hsDigest(hsBits2(s2))
+		k1o, k1s := hsDigest(hsBits3(o1)), hsDigest(hsBits2(s1))
+		o3, s3 := gen(a, 0, true)
+		g3o, g3s := hsDigest(hsBits3(o3)), hsDigest(hsBits2(s3))
+		k2o, k2s := hsDigest(hsBits3(o2)), hsDigest(hsBits2(s2))
+		fmt.Fprintf(w, "OK N %d NZ %d G1 %s %s G2 %s %s K1 %s %s G3 %s %s K2 %s %s\n", len(b1), nz,
+			g1o, g1s, g2o, g2s, k1o, k1s, g3o, g3s, k2o, k2s)
 	}
 }
